@@ -22,6 +22,58 @@ from sa.effects import accesses
 from sa.source import AnalysisError, methods
 
 
+# ---- rule-group isolation ---------------------------------------------------------------------------
+
+import contextlib
+
+
+@contextlib.contextmanager
+def section(ctx, name: str):
+    """``with section(ctx, "group"):`` = ``with ctx.section("group"):`` plus: a NameError caused by a
+    variable that an earlier, unreadable section failed to bind is an analysis error of this group
+    (recorded, run continues), not a crash of the analyser."""
+    with ctx.section(name):
+        try:
+            yield
+        except NameError as e:
+            raise AnalysisError(f"depends on a rule group that could not be analysed ({e})")
+
+
+class Missing:
+    """Stand-in for a vanished anchor: any use raises AnalysisError, which the enclosing section
+    records; the other rule groups still run."""
+
+    def __init__(self, what: str):
+        object.__setattr__(self, "_what", what)
+
+    def __getattr__(self, name):
+        raise AnalysisError(f"anchor vanished: {object.__getattribute__(self, '_what')}")
+
+    def __bool__(self):
+        return False
+
+
+def anchor(ctx, rel: str, qual: str):
+    """ctx.func that does not abort the run: a vanished function becomes a Missing stand-in."""
+    try:
+        return ctx.func(rel, qual)
+    except AnalysisError as e:
+        ctx.errors.append(f"[anchor] {e}")
+        return Missing(f"{rel}:{qual}")
+
+
+def anchor_methods(ctx, rel: str, cls: ast.ClassDef, names: Sequence[str]) -> Dict[str, ast.AST]:
+    """methods(cls) where each required-but-missing name maps to a Missing stand-in."""
+    m = dict(methods(cls))
+    for n in names:
+        if n not in m:
+            ctx.errors.append(f"[anchor] anchor vanished: function {rel}:{cls.name}.{n}")
+            m[n] = Missing(f"{rel}:{cls.name}.{n}")
+        else:
+            ctx.functions.add(f"{rel}:{cls.name}.{n}")
+    return m
+
+
 # ---- AST predicates -------------------------------------------------------------------------
 
 def self_attr(node: ast.AST, name: Optional[str] = None, recv: str = "self") -> bool:
